@@ -377,6 +377,27 @@ class Spec(BFSSpec):
                 okk = (len(set(qids)) == len(qids) and set(qids) == set(best) and all(sans(r, "object_id") in src for r in Q)
                        and all(fld(r, "score") == best[fld(r, "subtomo_id")] for r in Q))
                 obs.check(okk, site, "merge-dropdup-one-best-per-id", lambda: f"got {self._brief(Q)} from {self._brief(cat)}", cls=empty)
+                if okk:
+                    # object numbers: rows that can be traced to exactly one input keep that input's grouping, and numbers of
+                    # different inputs never collide (the merge shifts them exactly as merge_and_renumber does)
+                    origin = {}
+                    for j, rr in enumerate(in_rows):
+                        for r in rr:
+                            origin.setdefault(sans(r, "object_id"), set()).add((j, fld(r, "object_id")))
+                    fwd, per_input, ok_part = {}, {}, True
+                    for r in Q:
+                        cands = origin.get(sans(r, "object_id"), set())
+                        if len(cands) != 1:
+                            continue
+                        (j, old), = cands
+                        if fwd.setdefault((j, old), fld(r, "object_id")) != fld(r, "object_id"):
+                            ok_part = False
+                        per_input.setdefault(j, {}).setdefault(fld(r, "object_id"), set()).add(old)
+                    ok_part = ok_part and all(len(v) == 1 for d_ in per_input.values() for v in d_.values())
+                    obs.check(ok_part, site, "merge-object-grouping-kept", "an input's object partition was not preserved", cls=empty)
+                    gs = [set(d_) for _, d_ in sorted(per_input.items())]
+                    disjoint = all(not (gs[i] & gs[k]) for i in range(len(gs)) for k in range(i + 1, len(gs)))
+                    obs.check(disjoint, site, "merge-object-numbers-disjoint", lambda: f"object numbers per input {gs}", cls=empty)
         else:
             raise ValueError(op)
         if new is None:
@@ -426,7 +447,56 @@ class Spec(BFSSpec):
         return [(fld(r, "geom4"), fld(r, "subtomo_id"), fld(r, "object_id")) for r in rows]
 
 
+def exec_intersection_sizes(case, obs):
+    """Intersection as a set operation at sizes where an implementation may switch strategy: a first list with repeated ids
+    (16 rows) against second lists with 1..40 distinct ids, for each id field, both argument orders of the rows."""
+    from cryocat import cryomotl as cm
+
+    feature, k, rev, seed = case
+    ids1 = [1, 1, 2, 2, 3, 4, 4, 4, 7, 8, 8, 30, 31, 31, 60, 60]
+    if rev:
+        ids1 = ids1[::-1]
+    ids2 = [2 * i + 2 for i in range(k)]            # 2, 4, .., 2k
+    ids2 = ids2[1::2] + ids2[0::2][::-1]            # not sorted
+    def rows(ids, base):
+        out = []
+        for p, v in enumerate(ids):
+            r = {c: float(base + 10 * p + q) + 0.5 for q, c in enumerate(COLS)}
+            r.update({"subtomo_id": float(base + p + 1), "tomo_id": 1.0, "object_id": 1.0, "geom4": float(base + p)})
+            r[feature] = float(v)
+            out.append(r)
+        return out
+    r1, r2 = rows(ids1, 1000 + seed), rows(ids2, 5000 + seed)
+    m1 = obs.lib("Motl.__init__", cm.Motl, frame(r1))
+    m2 = obs.lib("Motl.__init__", cm.Motl, frame(r2))
+    k1, k2 = df_key(m1.df), df_key(m2.df)
+    res = obs.lib("get_motl_intersection", cm.Motl.get_motl_intersection, m1, m2, feature)
+    obs.check(df_key(m1.df) == k1 and df_key(m2.df) == k2, "get_motl_intersection", "inputs-unmodified", "an operand was modified")
+    want = [r for r in r1 if r[feature] in set(float(v) for v in ids2)]
+    df = getattr(res, "df", None)
+    ok = df is not None and sorted(df.columns) == sorted(COLS)
+    if obs.check(ok, "get_motl_intersection", "exactly-20-fields", lambda: f"returned {type(res).__name__}"):
+        got = sorted(tuple(float(v) for v in row) for row in df[COLS].to_numpy())
+        exp = sorted(tuple(float(r[c]) for c in COLS) for r in want)
+        obs.check(got == exp, "get_motl_intersection", "intersection-rows",
+                  lambda: f"field {feature}: first list ids {ids1}, second list {k} ids {sorted(ids2)}: kept ids {sorted(df[feature].tolist())}, expected {sorted(r[feature] for r in want)}",
+                  cls="repeated-ids-in-first-list")
+    obs.nontrivial = 0 < len(want) < len(r1)
+    obs.outcome = (feature, k, len(df) if ok else -1)
+
+
 def families(tier, seed):
+    fams = _families(tier, seed)
+    from ..engine import Family
+    from ..space import Mapped, Product
+    ks = list(range(1, 41)) if tier == "quick" else list(range(1, 201))
+    fams.append(Family("intersection-sizes", Mapped(Product(("subtomo_id", "tomo_id", "object_id", "class"), ks, (False, True)), lambda c: c + (seed,)),
+                       exec_intersection_sizes, expect=("intersection-rows", "inputs-unmodified"),
+                       describe=lambda c: {"field": c[0], "distinct_ids_in_second_list": c[1], "first_list_reversed": c[2]}))
+    return fams
+
+
+def _families(tier, seed):
     exp_A = ("subset-rows-ordered", "remove-select-complementary", "remove-rows", "split-partition", "intersection-rows",
              "dropdup-one-best-per-id", "renumber-ids-1..N", "renumber-objects-partition", "payload-unchanged", "exactly-20-fields", "inputs-unmodified")
     exp_B = ("merge-ids-1..N", "merge-rows", "merge-object-grouping-kept", "merge-object-numbers-disjoint",
